@@ -123,11 +123,11 @@ func reposMapDecode(b []byte) (ReposMap, error) {
 	}
 
 	// Length
-	l := r.uvarint()
+	l := r.count()
 	m := make(map[uint32]MinimalRepoListEntry, l)
 
 	// Pre-allocate slice for all branches
-	allBranchesLen := r.uvarint()
+	allBranchesLen := r.count()
 	allBranches := make([]RepositoryBranch, 0, allBranchesLen)
 
 	for range l {
@@ -137,7 +137,7 @@ func reposMapDecode(b []byte) (ReposMap, error) {
 		if readIndexTime {
 			indexTimeUnix = int64(r.uvarint())
 		}
-		lb := r.uvarint()
+		lb := r.count()
 		for range lb {
 			allBranches = append(allBranches, RepositoryBranch{
 				Name:    r.str(),
@@ -172,8 +172,20 @@ func (b *binaryReader) uvarint() int {
 	return int(x)
 }
 
-func (b *binaryReader) str() string {
+// count reads a count of items or bytes that are still to come: it can not
+// exceed the number of remaining bytes.
+func (b *binaryReader) count() int {
 	l := b.uvarint()
+	if l < 0 || l > len(b.b) {
+		b.b = nil
+		b.err = fmt.Errorf("malformed %s", b.typ)
+		return 0
+	}
+	return l
+}
+
+func (b *binaryReader) str() string {
+	l := b.count()
 	if l > len(b.b) {
 		b.b = nil
 		b.err = fmt.Errorf("malformed %s", b.typ)
